@@ -499,8 +499,12 @@ def make_tensor(name, rank_ids, coo):
 class Canvas:
     def __init__(self, tensors):
         self.tensors = tensors
+        self.ranks_at_creation = [list(t.rank_ids) if isinstance(t, Tensor) else None for t in tensors]
+        self.names = [t.name if isinstance(t, Tensor) else None for t in tensors]
         self.acts = []
         self.displayed = False
+        self.updates_at_creation = CTX.updates
+        self.updates_at_display = None
 
     def addActivity(self, *pts, spacetime=None, **kw):
         if kw:
@@ -518,6 +522,7 @@ def createCanvas(*tensors):
 
 def displayCanvas(c):
     c.displayed = True
+    c.updates_at_display = CTX.updates
     CTX.event("displayCanvas")
 
 
